@@ -68,8 +68,17 @@ def main():
                 shutil.copytree(demo_src, os.path.join(r, "DEMO"))
         meta["ran"]["tests_clean"] = tests(clean)
         meta["ran"]["tests_patched"] = tests(patched)
-        c1, o1 = sh([PY, "DEMO/demo.py"], cwd=clean, timeout=600)
-        c2, o2 = sh([PY, "DEMO/demo.py"], cwd=patched, timeout=600)
+        # the demonstration is run in the sub-agent's own worktree (some demos assert that path):
+        # with the change as left there, then with the change reversed, then restored
+        pf = os.path.join(dst, "patch.diff")
+        c2, o2 = sh([PY, "DEMO/demo.py"], cwd=wt, timeout=900)
+        rc, ro = sh(["git", "-C", wt, "apply", "-R", pf])
+        if rc != 0:
+            sys.exit("cannot reverse the patch in the worktree: " + ro)
+        try:
+            c1, o1 = sh([PY, "DEMO/demo.py"], cwd=wt, timeout=900)
+        finally:
+            sh(["git", "-C", wt, "apply", pf])
         meta["ran"]["demo_clean_exit"] = c1
         meta["ran"]["demo_patched_exit"] = c2
         meta["ran"]["demo_patched_tail"] = o2[-400:]
